@@ -452,6 +452,11 @@ var evalGens = []evalGen{
 	}},
 }
 
+// flatReaderGens names the reader generators that turn out NOT to nest: a run
+// of dashes reads as d sibling symbols.  They are kept (that they do not nest
+// is itself checked by running them) but not beyond 10^6 forms.
+var flatReaderGens = map[string]bool{"dash-run": true, "quote-negative-mix": true}
+
 // readerGens: every way source text nests WITHOUT passing through a bracket
 // (prefix runs and their mixtures), prefix/bracket alternations, prefix runs
 // inside brackets, and plain bracket nesting for comparison.
